@@ -30,9 +30,13 @@ ParamSets(o) == {{p} : p \in ParamsOf[o]} \cup {{p, q} : p \in ParamsOf[o], q \i
 (* batch: max_batch of the lazy graph ("two" splits a 5-member axis unevenly: 2, 2, 1); companion: the scalar parameters   *)
 (* that accompany the distributions are zero or non-zero (a tilt given as (distribution, scalar), a CTF with a fixed Cs) *)
 Init == /\ \E o \in Objects : \E ps \in ParamSets(o) : \E n1 \in {1, 2, 3, 5}, n2 \in {2}, soft \in BOOLEAN, mean \in BOOLEAN, lz \in BOOLEAN,
-                                                       b \in {"auto", "two"}, comp \in {"zero", "nonzero"} :
+                                                       b \in {"auto", "two"}, comp \in {"zero", "nonzero"}, wt \in BOOLEAN :
              /\ (b = "two" => lz /\ n1 = 5) /\ (n1 = 5 => b = "two")
-             /\ c = [obj |-> o, params |-> ps, n1 |-> n1, n2 |-> n2, soft |-> soft, mean |-> mean, lazy |-> lz, batch |-> b, companion |-> comp]
+             \* weighted: the distributions carry non-unit weights (a focal series); a transfer function applied to existing waves
+             \* yields member i = weight_i x the scalar run (the builders renormalise; apertures and envelopes do not use the weights)
+             /\ (wt => o \in {"ctf", "spatial"} /\ ps \subseteq {"defocus", "C30"})        \* only the aberration kernel carries the weights
+             /\ c = [obj |-> o, params |-> ps, n1 |-> n1, n2 |-> n2, soft |-> soft, mean |-> mean, lazy |-> lz, batch |-> b, companion |-> comp,
+                     weighted |-> wt]
         /\ done = FALSE
 Next == ~done /\ done' = TRUE /\ UNCHANGED c
 Spec == Init /\ [][Next]_vars
